@@ -21,6 +21,7 @@ approach. This means scanning all local values before proceeding to the next dep
 """
 
 import abc
+from collections import deque
 from typing import Callable, List
 
 from deep.api.tracepoint import VariableId
@@ -150,10 +151,11 @@ def breadth_first_search(node: 'Node', consumer: Callable[['Node'], bool]):
     :param node: the initial node to start the search
     :param consumer: the consumer to call on each node
     """
-    queue = [node]
+    queue = deque([node])
 
     while len(queue) != 0:
-        pop = queue.pop()
+        # take from the front: nodes are appended level by level, so this is what makes the search breadth first
+        pop = queue.popleft()
         can_continue = consumer(pop)
 
         if can_continue:
